@@ -255,10 +255,10 @@ theorem own_or_receivership {c : Ctx} (h : EntitledSigner c true) :
 theorem world_tx_third_party_withdraws_only_inside_a_bracket {w w' : WState} {tx : List TOp} (h : w.runTx tx = some w')
     (h0 : ∀ (k : Nat) (a : AcctV), w.accts[k]? = some a → inRecv a = false)
     {i ai bi signer : Nat} {amount vault : Int} {all : Bool} (hi : tx[i]? = some (.ix (.withdraw ai bi signer amount all vault))) :
-    ∃ (wi : WState) (a : AcctV), wi.accts[ai]? = some a ∧
+    ∃ (wi : WState) (a : AcctV), w.before tx i = some wi ∧ wi.accts[ai]? = some a ∧
       (OwnSigner wi.g a signer ∨ (AnyBracket tx ai ∧ 0 < i ∧ i + 1 < tx.length)) := by
-  obtain ⟨wi, a, b, o, ha, hb, ho, hbr⟩ := tx_withdraw_in_bracket h h0 hi
-  refine ⟨wi, a, ha, ?_⟩
+  obtain ⟨wi, a, b, o, hbef, ha, hb, ho, hbr⟩ := tx_withdraw_in_bracket h h0 hi
+  refine ⟨wi, a, hbef, ha, ?_⟩
   have hs := ((world_user_instructions_need_entitled_signer (wi.ctx a b signer b.v.liquidityVault vault)).2.2.2.1 amount all o ho).1
   rcases own_or_receivership hs with h1 | h1
   · exact Or.inl h1
@@ -268,10 +268,10 @@ theorem world_tx_third_party_withdraws_only_inside_a_bracket {w w' : WState} {tx
 theorem world_tx_third_party_repays_only_inside_a_bracket {w w' : WState} {tx : List TOp} (h : w.runTx tx = some w')
     (h0 : ∀ (k : Nat) (a : AcctV), w.accts[k]? = some a → inRecv a = false)
     {i ai bi signer : Nat} {amount : Int} {all : Bool} (hi : tx[i]? = some (.ix (.repay ai bi signer amount all))) :
-    ∃ (wi : WState) (a : AcctV), wi.accts[ai]? = some a ∧
+    ∃ (wi : WState) (a : AcctV), w.before tx i = some wi ∧ wi.accts[ai]? = some a ∧
       (OwnSigner wi.g a signer ∨ (AnyBracket tx ai ∧ 0 < i ∧ i + 1 < tx.length)) := by
-  obtain ⟨wi, a, b, o, ha, hb, ho, hbr⟩ := tx_repay_in_bracket h h0 hi
-  refine ⟨wi, a, ha, ?_⟩
+  obtain ⟨wi, a, b, o, hbef, ha, hb, ho, hbr⟩ := tx_repay_in_bracket h h0 hi
+  refine ⟨wi, a, hbef, ha, ?_⟩
   have hs := ((world_user_instructions_need_entitled_signer (wi.ctx a b signer b.v.liquidityVault 0)).2.2.2.2 amount all o ho).1
   rcases own_or_receivership hs with h1 | h1
   · exact Or.inl h1
